@@ -6,10 +6,12 @@ from checks import gadgets
 
 def run(chk):
     q = chk.quick
-    plan = [("toy79", "mixed", 500 if q else 12000), ("toy31723", "mixed", 250 if q else 6000), ("toy7", "mixed", 150 if q else 3000),
+    plan = [("toy79", "mixed", 350 if q else 12000), ("toy31723", "mixed", 200 if q else 6000), ("toy7", "mixed", 150 if q else 3000),
             ("toy79", "tamper", 300 if q else 8000),
             # altered second-phase commitments: on a 7-element group a mis-weighted or unabsorbed field changes the verdict of ~2/7 of the runs
-            ("toy7", "tamper2", 400 if q else 6000), ("toy79", "tamper2", 400 if q else 6000)]
+            ("toy7", "tamper2", 400 if q else 6000), ("toy79", "tamper2", 400 if q else 6000),
+            # surplus inner-product rounds with arbitrary points: rejected by the shape guard, not by the luck of the algebra
+            ("toy7", "surplus", 400 if q else 6000), ("toy79", "surplus", 200 if q else 4000)]
     outcomes = collections.Counter()
     for i, (curve, kind, n) in enumerate(plan):
         # only the verifier's verdict is compared: the proof on the wire (honest, from a bad witness, or tampered) is an input
